@@ -111,6 +111,15 @@ def gen_cases(ck):
     # name), type-prefix combinations, arrows, member shapes, keywords as names (deterministic)
     for k, t in g.near_miss_lists():
         add(t, "shape_" + k)
+    # lists with 255, 256, 257, 511, 512, 513 entries in every list kind (counters of 8 bits), and a
+    # mixed illegal list at those sizes; evaluated by the Coq model like every other case
+    for lk in g.ENTRY_KINDS:
+        for n in (255, 256, 257, 511, 512, 513):
+            text, cls, exp = g.expand_recipe({"kind": "entries", "list": lk, "n": n})
+            add(text, "count_" + lk, g.from_wire(json.loads(exp)))
+    for lk in ("type_obj", "type_enum"):
+        for n in (255, 256, 511, 512):
+            add(g.expand_recipe({"kind": "entries", "list": lk, "n": n, "mixed": True})[0], "count_mixed")
     # truncation at every byte
     trunc_src = [t.encode() for t in FIXED_TEXTS]
     short = sorted((t for _, t in laid if 20 < len(t) < (160 if quick else 400)), key=len)
@@ -262,6 +271,76 @@ def history_check(ck, items):
     }
 
 
+KNOWN_DEEP = "C13.deep_nesting_stack_overflow"
+
+
+def big_check(ck):
+    """Large inputs, each in its own process: long runs of comment / blank lines in every layout and
+    attached-comment position, lists of 2^16 +- 1 entries, 100 000 members, types nested 500 and
+    2000 deep. The expected outcome and tree are known by construction of the recipe; the
+    implementation's tree is compared through the CRC-32 of its canonical dump. A process that
+    dies is a violation whose replay is the recipe."""
+    quick = ck.tier == "quick"
+    recipes = g.big_recipes(quick)
+    # the open finding: nesting so deep that the recursive parser exhausts the stack
+    probes = [{"kind": "deep", "prefix": pre, "depth": 100000} for pre in g.DEEP_PREFIXES]
+    cases, expects = [], []
+    for rc in recipes + probes:
+        text, cls, exp = g.expand_recipe(rc)
+        cases.append({"id": len(cases), "op": "parse", "summary": True, "text": text.hex(), "recipe": rc,
+                      "tag": "big_" + rc["kind"]})
+        expects.append((cls, g.expected_summary(exp), len(text)))
+    results = ck.harness_run("idl", cases, shards=len(cases))
+    n_ok, n_known = 0, 0
+    for c, r, (cls, es, size) in zip(cases, results, expects):
+        rc = c["recipe"]
+        slim = {k: v for k, v in c.items() if k != "text"}
+        what = g.describe_recipe(rc)
+        probe = rc in probes
+        if r.get("crash") or r.get("class") not in CLASS:
+            log = (r.get("log") or "")[-200:]
+            if probe:
+                n_known += 1
+                ck.violation("the parser process dies (stack overflow) on %s" % what, {"case": slim, "impl": r},
+                             tag="deep%d" % c["id"], sig=KNOWN_DEEP)
+            else:
+                ck.violation("the parser process dies on %s (%d bytes): %s" % (what, size, log.strip()[-120:]),
+                             {"case": slim, "impl": r, "note": "the replay holds the recipe, not the text"},
+                             tag="big%d" % c["id"])
+            continue
+        if probe:
+            if r["class"] == cls and (es is None or (r.get("tree_crc") == es["tree_crc"]
+                                                     and r.get("tree_len") == es["tree_len"])):
+                n_ok += 1
+            elif r["class"] != "err":       # a clean rejection of absurd nesting is acceptable
+                ck.violation("wrong result on %s" % what, {"case": slim, "impl": r}, tag="deep%d" % c["id"])
+            continue
+        if r["class"] != cls:
+            ck.violation("%s (%d bytes) is %s, expected %s%s" % (
+                what, size, {"ok": "accepted", "err": "rejected", "panic": "a panic"}[r["class"]],
+                {"ok": "accepted", "err": "rejected"}[cls],
+                (": " + r.get("panic", "")) if r["class"] == "panic" else ""),
+                {"case": slim, "impl": r}, tag="big%d" % c["id"])
+        elif es is not None and (r.get("tree_crc") != es["tree_crc"] or r.get("tree_len") != es["tree_len"]):
+            ck.violation("%s (%d bytes) is parsed to a different tree than the one it denotes" % (what, size),
+                         {"case": slim, "impl": r, "expected": es}, tag="big%d" % c["id"])
+        else:
+            n_ok += 1
+    ck.cov["large_inputs"] = {
+        "cases": len(recipes), "as_expected": n_ok, "one_process_per_case": True,
+        "largest_bytes": max(e[2] for e in expects), "total_bytes": sum(e[2] for e in expects),
+        "kinds": sorted(set(g.describe_recipe(rc).split(" in position")[0] if rc["kind"] == "run"
+                            else g.describe_recipe(rc) for rc in recipes))[:60],
+        "run_positions": g.RUN_POSITIONS,
+        "evaluated_at": "specification level: the expected outcome and the expected tree are known by "
+                        "construction of each recipe (lib/idlgen.py expand_recipe) and compared through the "
+                        "CRC-32 and length of the canonical dump; the Coq model is NOT evaluated on these inputs "
+                        "(vm_compute on megabyte texts with unary lengths is too slow); lists of 255..513 "
+                        "entries go through the Coq model like every other case (class count_*)",
+        "deep_nesting_probes": len(probes), "deep_nesting_probes_crashing": n_known,
+    }
+
+
 def render_case(c, r):
     tree = g.from_wire(r["tree"]) if r.get("class") == "ok" else None
     return "(mkP %s %d %s %s %s)" % (
@@ -297,6 +376,24 @@ def main():
         cases = [rp["case"]] if "case" in rp else []
         for i, c in enumerate(cases):
             c["id"] = i
+        if cases and "recipe" in cases[0]:
+            # a large input: regenerate the text from the recipe, one process, specification-level verdict
+            ok, log = ck.harness_build(["idl"])
+            c = cases[0]
+            text, cls, exp = g.expand_recipe(c["recipe"])
+            es = g.expected_summary(exp)
+            r = ck.harness_run("idl", [dict(c, text=text.hex(), summary=True)], shards=1)[0]
+            ck.ran_correspondence = True
+            slim = {k: v for k, v in c.items() if k != "text"}
+            if r.get("crash") or r.get("class") not in CLASS:
+                ck.violation("the parser process dies on %s" % g.describe_recipe(c["recipe"]), {"case": slim, "impl": r},
+                             tag="big0", sig=KNOWN_DEEP if c["recipe"].get("depth", 0) >= 100000 else None)
+            elif r["class"] != cls or (es is not None and (r.get("tree_crc") != es["tree_crc"]
+                                                            or r.get("tree_len") != es["tree_len"])):
+                ck.violation("wrong result on %s" % g.describe_recipe(c["recipe"]),
+                             {"case": slim, "impl": r, "expected": es}, tag="big0")
+            ck.cov.update({"evaluations": 1, "distinct_nontrivial": 2})
+            ck.finish(rule="replay of one large input by recipe")
     else:
         cases = gen_cases(ck)
 
@@ -312,11 +409,21 @@ def main():
                  for i, t in enumerate(seq_replay["texts"])]
     results = ck.harness_run("idl", cases)
     ck.ran_correspondence = True
+    # a dying process takes the rest of its shard with it: run the affected cases again, one process each
+    dead = [i for i, r in enumerate(results) if r.get("crash")]
+    if dead:
+        again = ck.harness_run("idl", [cases[i] for i in dead[:400]], shards=min(64, len(dead[:400])))
+        for i, r in zip(dead[:400], again):
+            results[i] = r
     items = []
+    n_dead = 0
     for c, r in zip(cases, results):
         if r.get("crash") or r.get("class") not in CLASS:
-            ck.violation("harness crashed on a parse case", {"case": c, "impl": r}, tag="crash%d" % c["id"],
-                         no_input=True)
+            n_dead += 1
+            if n_dead <= 5:
+                slim = {k: v for k, v in c.items() if k != "text"} if "recipe" in c else c
+                ck.violation("the parser process dies on %r" % bytes.fromhex(c["text"]).decode("utf-8", "replace")[:100],
+                             {"case": slim, "impl": r}, tag="crash%d" % c["id"])
             continue
         items.append((c, r))
     if seq_replay is not None:
@@ -326,6 +433,7 @@ def main():
                          {"case": seq_replay, "deviation": dev}, tag="hist0")
     elif not ck.replay:
         history_check(ck, items)
+        big_check(ck)
     try:
         bad = ck.coq_eval("cases", HEADER, items, lambda it: render_case(it[0], it[1]), per_shard=120)
     except RuntimeError as e:
